@@ -3,13 +3,13 @@ import RpmVerif.Model.Header
 import RpmVerif.Spec.Canon
 import RpmVerif.Model.Builder
 import RpmVerif.Driver.Hash
-/-! Driver for C16. Ops `offsets BYTES`, `offbig DL`. Observation
+/-! Driver for C16. Ops `offsets BYTES`, `offbig DL`, `offbig16 WHICH N DL` (N NULL entries + DL-byte store in the signature / MAIN header). Observation
 `ok <lead> <sig> <hdr> <payload> wlen=<n> clen=<n> i1=<intro at sig> i2=<intro at hdr>` | `err`.
 Spec: boundaries recomputed from the raw input bytes (`Canon.hdrLen`), independently of the parser. -/
 namespace RpmVerif.Driver.C16
 open RpmVerif.Hdr RpmVerif.Driver
 
-def ops : List String := ["offsets", "offbig", "offv"]
+def ops : List String := ["offsets", "offbig", "offv", "offbig16"]
 
 def introAt (w : Bytes) (pos : Nat) : Bool := (w.drop pos).take 4 == RpmVerif.Gen.HEADER_MAGIC ++ [1]
 
@@ -78,6 +78,21 @@ def handle (op : String) (args : List String) (impl : String) : String :=
       let want := obs ⟨0, 96, h, h + 16⟩ (h + 16 + 3) 3 true true
       answer m (verdictOf (impl == want)) "big-store"
     | none => badReq "dl"
+  | "offbig16", [which, ns, d] =>
+    -- N NULL entries and a DL-byte store in the signature (`s`) or MAIN (`h`) header, the other header empty: the model's
+    -- `offsets` needs the two intro fields only (C16.header_size_fits: that IS what the code's u64 arithmetic computes)
+    match ns.toNat?, d.toNat? with
+    | some n, some dl =>
+      let big : Header := ⟨n, dl, [], []⟩
+      let md : Metadata := if which == "s" then ⟨⟨3, 0, 0, 0, [], 1, 5, []⟩, big, ⟨0, 0, [], []⟩⟩ else ⟨⟨3, 0, 0, 0, [], 1, 5, []⟩, ⟨0, 0, [], []⟩, big⟩
+      let o := offsets md
+      let m := obs o (o.payload + 3) 3 true true
+      let sz := 16 + 16 * n + dl
+      let h := if which == "s" then 96 + sz + (8 - dl % 8) % 8 else 96 + 16
+      let pay := if which == "s" then h + 16 else h + sz
+      let want := obs ⟨0, 96, h, pay⟩ (pay + 3) 3 true true
+      answer m (verdictOf (impl == want)) (s!"big16-{which}-" ++ (if 16 * n + dl ≥ 4294967296 then "beyond-u32" else "inside-u32"))
+    | _, _ => badReq "numbers"
   | _, _ => badReq "args"
 
 end RpmVerif.Driver.C16
